@@ -133,6 +133,38 @@ func (c *c03) Generate(cx *Ctx, chunk int) []*Item {
 		// single clause followed by a catch-all clause (shows whether the cut removed it)
 		add([]*term.Term{cl, last}, "exhaustive-1")
 	}
+	// the same conjunctions nested on the left: ((A,B),C), (((A,B),C),D) are the same sequence as A,B,C(,D)
+	leftNested := func(goals []*term.Term) *term.Term {
+		flat := c03Body(goals)
+		var gs []*term.Term
+		for flat.IsCmp(",", 2) {
+			gs = append(gs, flat.Args[0])
+			flat = flat.Args[1]
+		}
+		gs = append(gs, flat)
+		t := gs[0]
+		for _, g := range gs[1:] {
+			t = term.C(",", t, g)
+		}
+		return t
+	}
+	for _, b := range bodies {
+		if len(b) == 3 {
+			add([]*term.Term{term.C(":-", head, leftNested(b)), last}, "exhaustive-left-nested-3")
+		}
+	}
+	for i := 0; i < 1500; i++ {
+		b := make([]*term.Term, 4+r.Intn(2))
+		for k := range b {
+			b[k] = alpha[r.Intn(n)]
+		}
+		// mixed nesting: ((A,B),(C,D)) and (((A,B),C),D)
+		if r.Intn(2) == 0 {
+			add([]*term.Term{term.C(":-", head, leftNested(b)), last}, "left-nested-deep")
+		} else {
+			add([]*term.Term{term.C(":-", head, term.C(",", leftNested(b[:2]), leftNested(b[2:]))), last}, "left-nested-mixed")
+		}
+	}
 	cx.exhaustive = true
 	nPairs, nRandom, nLen4 := 4000, 2500, 0
 	if cx.Thorough() {
